@@ -406,3 +406,73 @@ Lemma dask_product_duplicates_witness : forall cf,
   observe_dask cf Product [mkParam "pipeline.charge_collection.m1.arguments.a" (Lit [Sc 8; Sc 8]) true] [] [] None
   = None.
 Proof. intros cf H. apply observe_dask_product_refuses_duplicates; auto. Qed.
+
+(* ------------------------------------------------------------------------------------ for a source configuration
+   with the repaired naming rule: the statements instantiated by Properties/C05.v *)
+
+Theorem dask_product_observe_cfg : forall cf,
+  cf_name_fallback_full cf = true -> cf_name_stage3 cf = true ->
+  forall ps slots table range names,
+  let en := enabled ps in
+  let keys := map p_key en in
+  NoDup keys ->
+  existsb has_ph en = false ->
+  dim_names cf keys = Some names ->
+  str_nodup (map (name_of names) keys ++ reserved_dims) = true ->
+  cf_dask_product_dedup cf = true \/ forallb (fun s => pvals_nodup (snd s)) (dask_steps en) = true ->
+  exists oc, observe_dask cf Product ps slots table range = Some oc /\
+    (forall x, In x (oc_runs oc) <-> In x (map (fun r => received slots (r_params r)) (spec_product en))) /\
+    length (oc_runs oc) <= length (spec_product en) /\
+    (forall r, In r (spec_product en) ->
+       lookup (spec_label_dask Product names en (r_index r) (r_params r)) (oc_result oc)
+       = Some (data_of slots (r_params r))) /\
+    (forall l d, In (l, d) (oc_result oc) ->
+       exists r, In r (spec_product en) /\ l = spec_label_dask Product names en (r_index r) (r_params r)
+                 /\ d = data_of slots (r_params r)) /\
+    labels_nodup (map fst (oc_result oc)) = true.
+Proof.
+  intros cf Hf H3 ps slots table range names en keys Nk Hph Hn Hres Hdup.
+  apply dask_product_observe; auto.
+  exact (dim_names_inj cf keys names Hf H3 Nk Hn).
+Qed.
+
+(* every well-formed product request is run on the dask path *)
+Definition dask_product_accepts_full (cf : cfg) : Prop :=
+  forall ps slots table range names,
+    let en := enabled ps in
+    NoDup (map p_key en) -> existsb has_ph en = false ->
+    dim_names cf (map p_key en) = Some names ->
+    str_nodup (map (name_of names) (map p_key en) ++ reserved_dims) = true ->
+    observe_dask cf Product ps slots table range <> None.
+
+(* ... holds iff the value lists are de-duplicated *)
+Theorem dask_product_accepts_decided : forall cf,
+  cf_name_fallback_full cf = true -> cf_name_stage3 cf = true ->
+  if cf_dask_product_dedup cf then dask_product_accepts_full cf else ~ dask_product_accepts_full cf.
+Proof.
+  intros cf Hf H3. destruct (cf_dask_product_dedup cf) eqn:E.
+  - intros ps slots table range names en Nk Hph Hn Hres.
+    destruct (dask_product_observe_cfg cf Hf H3 ps slots table range names Nk Hph Hn Hres (or_introl E)) as (oc & H & _).
+    rewrite H. discriminate.
+  - intros H.
+    assert (Hn : dim_names cf (map p_key (enabled [mkParam "pipeline.charge_collection.m1.arguments.a" (Lit [Sc 8; Sc 8]) true]))
+                 = Some [("pipeline.charge_collection.m1.arguments.a", "a")]).
+    { unfold dim_names, dim_names2. simpl. unfold stage3. destruct (cf_name_stage3 cf); reflexivity. }
+    specialize (H [mkParam "pipeline.charge_collection.m1.arguments.a" (Lit [Sc 8; Sc 8]) true] [] [] None
+                  [("pipeline.charge_collection.m1.arguments.a", "a")]
+                  ltac:(repeat constructor; simpl; intuition) eq_refl Hn eq_refl).
+    apply H. apply dask_product_duplicates_witness. exact E.
+Qed.
+
+(* the rows of SequentialMode.create_params are the requested runs *)
+Definition dask_sequential_full (cf : cfg) : Prop :=
+  forall get ps, dask_seq_cells cf get ps = spec_sequential_params get (enabled ps).
+
+(* ... holds iff the rows are built from get_parameters_item *)
+Theorem dask_sequential_decided : forall cf,
+  if cf_dask_sequential_rows cf then dask_sequential_full cf else ~ dask_sequential_full cf.
+Proof.
+  intros cf. destruct (cf_dask_sequential_rows cf) eqn:E.
+  - intros get ps. apply dask_seq_cells_rows. exact E.
+  - intros H. exact (dask_seq_cells_zip_witness cf E (H _ _)).
+Qed.
